@@ -86,6 +86,12 @@ fn main() {
             }
             std::process::exit(report::replay(&args[2]));
         }
+        "minimise" => {
+            if args.len() < 3 {
+                usage();
+            }
+            std::process::exit(report::minimise_file(&args[2]));
+        }
         "selftest-determinism" => {
             let n: u64 = args.get(2).and_then(|s| s.parse().ok()).unwrap_or(200);
             std::process::exit(report::selftest_determinism(seed, n));
